@@ -121,6 +121,7 @@ func serverUpgraderRules(c *Ctx, prop string) {
 		return
 	}
 	ust := structOf(un)
+	c.rejectionField("header")
 	errs := map[string]string{}
 	for _, n := range []string{"ErrHandshakeBadProtocol", "ErrHandshakeBadMethod", "ErrHandshakeBadHost", "ErrHandshakeBadUpgrade", "ErrHandshakeBadConnection",
 		"ErrHandshakeBadSecKey", "ErrHandshakeBadSecVersion", "ErrHandshakeUpgradeRequired", "ErrMalformedRequest"} {
@@ -374,7 +375,7 @@ func serverUpgraderRules(c *Ctx, prop string) {
 			if !rejected && cs != "500" {
 				problems = append(problems, "a plain error must be answered with status 500, got "+cs)
 			}
-			if rejected && cs != "500" && !strings.Contains(cs, ".code") {
+			if rejected && cs != "500" && !strings.Contains(cs, "."+c.rejectionField("code")) {
 				problems = append(problems, "the status code is not the rejection's code: "+cs)
 			}
 			if why := statusCodeProblem(p, code); why != "" {
@@ -820,7 +821,7 @@ func rejectionProblems(p *fold.Path, gotErr string, we fold.Effect) []string {
 	if !strings.Contains(first, "Header") && !(p.Chose("isnil(Header)") == 1 && strings.Contains(first, "nil")) {
 		out = append(out, "the configured extra headers are not the first thing the error response writes after the status line: "+first)
 	}
-	if asked == 1 && !(strings.Contains(second, gotErr) && strings.Contains(second, "header")) {
+	if asked == 1 && !(strings.Contains(second, gotErr) && strings.Contains(second, rejHeaderField)) {
 		out = append(out, "the headers of the rejection "+name+" are not written with the error response: "+second)
 	}
 	if asked == 0 && !strings.Contains(second, "nil") {
@@ -860,4 +861,23 @@ func extensionAccumulation(p *fold.Path, final fold.Val) []string {
 		}
 	}
 	return out
+}
+
+// rejHeaderField is the current name of ConnectionRejectedError's field that
+// the frozen tree calls "header" (set by rejectionField on first use).
+var rejHeaderField = "header"
+
+// rejectionField resolves a field of ConnectionRejectedError by its frozen name
+// and returns the name it has now (fields may be renamed).
+func (c *Ctx) rejectionField(frozen string) string {
+	if rn := c.P.NamedType(ws, "ConnectionRejectedError"); rn != nil {
+		st := structOf(rn)
+		if i := fieldIdx(st, "header", nil); i >= 0 {
+			rejHeaderField = st.Field(i).Name()
+		}
+		if i := fieldIdx(st, frozen, nil); i >= 0 {
+			return st.Field(i).Name()
+		}
+	}
+	return frozen
 }
